@@ -32,14 +32,13 @@ def run(rep):
         rule="seeded sequential histories in which, with probability 0.15-0.5 per step, an operation (Get, GetKeys, Set, Delete, "
              "Commit, Rollback) is issued through a handle that already ended (by Commit, by Rollback, by a failed Commit), with "
              "other transactions of all four levels (incl. ReadUncommitted) open and probing all keys after 70% of the late "
-             "operations; non-trivial = contains an operation through an ended handle; histories with a late WRITE are compared "
-             "with the model (which contains finding D7) step by step, and with the abstract machine up to the first late write")
+             "operations; non-trivial = contains an operation through an ended handle; every history is compared with the extracted "
+             "client-layer model (Client.cstep) and with the abstract machine, step by step")
     for f in C.known_findings("C13"):
         if f.get("status") == "open" and st.d7_seen > 0:
             rep.known_finding("%s: %s (reproduced in %d histories of this run)" % (f["id"], f["what"], st.d7_seen))
     rep.coverage["late_write_histories"] = st.d7_seen
-    rep.coverage["refuted_theorems"] = ["C13_late_write_refuted"]
-    rep.coverage["partial_theorems"] = ["C13_late_reads_commit_rollback_partial"]
+    rep.coverage["refuted_theorems"] = ["C13_late_write_refuted_orig (the code before the repair of D7)"]
     rep.assumptions = ["unknown (never issued) transaction ids can only be supplied over gRPC metadata; the inline client has no such handle"]
 
 
